@@ -408,7 +408,7 @@ AppOf(s) == [Msg("APP", 0) EXCEPT !.enc = s.keys]
 (* key, the DH share dhM and the random rM; it cannot sign for anybody else. *)
 
 Rewrite(kind, m) ==
-  CASE kind = "rw_cert"     -> [m EXCEPT !.cert = "certM"]
+  CASE kind = "rw_cert"     -> [m EXCEPT !.cert = "certM", !.also = "-"]                 \* the list becomes [M]
     [] kind = "rw_cert_pre" -> [m EXCEPT !.cert = "certM", !.also = m.cert]             \* [M, original leaf]
     [] kind = "rw_cert_app" -> [m EXCEPT !.also = "certM"]                              \* [original leaf, M]
     [] kind = "rw_ske_key"  -> [m EXCEPT !.dh = "dhM"]                                   \* signature left as is
